@@ -20,6 +20,29 @@ pub fn generate(r: &mut Rng, tier: Tier) -> Scenario {
             g.duplicate_label = false;
         }
     });
+    // now and then the same file is included twice from one place (a snippet without labels of
+    // its own keeps the program analysable)
+    let mut world = world;
+    if world.files.len() > 1 && r.chance(1, 8) {
+        let incs: Vec<(String, usize)> = world
+            .files
+            .iter()
+            .flat_map(|(p, t)| crate::world::split_lines(t).iter().enumerate().filter(|(_, l)| crate::world::parse_include(l).is_some()).map(|(i, _)| (p.clone(), i)).collect::<Vec<_>>())
+            .collect();
+        if !incs.is_empty() {
+            let (p, line) = r.pick(&incs).clone();
+            if let Some(t) = world.files.get(&p).cloned() {
+                let mut ls: Vec<String> = crate::world::split_lines(&t).iter().map(|s| (*s).to_string()).collect();
+                let dup = ls[line].clone();
+                ls.insert(line + 1, dup);
+                let mut nt = ls.join("\n");
+                if t.ends_with('\n') {
+                    nt.push('\n');
+                }
+                world.files.insert(p, nt);
+            }
+        }
+    }
     let k = if t2 {
         if tier == Tier::Quick { 4 } else { 8 }
     } else if tier == Tier::Quick {
